@@ -207,3 +207,504 @@ Proof.
     + intros b v Hb Hp. apply In_upd in Hb as [->|Hb]; [|eauto].
       cbn in Hp. injection Hp as <-. auto.
 Qed.
+
+(** parking in the repaired protocol, before the guard / listener is dropped *)
+Definition park_mid (i : nat) (a : awaiter) (s : ast) : ast :=
+  let s1 := set_aw s i (mkA (a_val a) AParked (a_woken a) (a_polls a)) in
+  if loading s1 then set_wakers s1 (wakers s1 ++ [i]) else wake_aw s1 i.
+
+Lemma park_mid_facts s i a g :
+  Inv s -> nth_error (aws s) i = Some a -> a_pc a = ALoaded g ->
+  let s2 := park_mid i a s in
+  loading s2 = loading s /\ value s2 = value s /\ wbit s2 = wbit s /\ cwoken s2 = cwoken s
+  /\ c_pc s2 = c_pc s /\ readers s2 = readers s /\ vq s2 = vq s
+  /\ (wakers s2 <> [] -> c_pc s2 <> CDone)
+  /\ (forall j b, nth_error (aws s2) j = Some b -> a_pc b = AParked -> a_woken b = false ->
+                  In j (wakers s2))
+  /\ nguard (aws s2) + g1 a = nguard (aws s)
+  /\ (forall b v, In b (aws s2) -> a_pc b = ADone v -> v = VAL).
+Proof.
+  intros HI Ha Hpc s2. pose proof HI as [H1 H2 H3 H4 H5 H6 H7 H8].
+  set (a' := mkA (a_val a) AParked (a_woken a) (a_polls a)).
+  assert (Ha1 : nth_error (upd (aws s) i a') i = Some a') by (eapply nth_upd_eq; eauto).
+  assert (N1 : nguard (upd (aws s) i a') + g1 a = nguard (aws s)).
+  { pose proof (nguard_upd _ _ a' _ Ha) as E. unfold g1 at 2 in E. cbn in E. lia. }
+  subst s2. unfold park_mid. fold a'. cbn [loading set_aw].
+  destruct (loading s) eqn:Hl.
+  - cbn -[nguard]. repeat (split; [auto|]); auto.
+    + intros _ Hd. rewrite Hd in H1. cbn in H1. congruence.
+    + intros j b Hj Hp Hw. destruct (nth_upd_cases _ _ _ _ _ _ Ha Hj) as [[-> ->]|[Hne Hj']].
+      * apply in_or_app; right; left; auto.
+      * apply in_or_app; left; eauto.
+    + intros b v Hb Hp. apply In_upd in Hb as [->|Hb]; [discriminate|eauto].
+  - unfold wake_aw. cbn [aws set_aw]. rewrite Ha1. cbn -[nguard].
+    repeat (split; [auto|]); auto.
+    + intros j b Hj Hp Hw.
+      destruct (nth_upd_cases _ _ _ _ _ _ Ha1 Hj) as [[-> ->]|[Hne Hj']]; [discriminate|].
+      rewrite nth_upd_ne in Hj' by auto. eauto.
+    + pose proof (nguard_upd _ _ (mkA (a_val a) AParked true (a_polls a)) _ Ha1) as E.
+      unfold g1 at 1 2 in E. cbn in E. lia.
+    + intros b v Hb Hp. apply In_upd in Hb as [->|Hb]; [discriminate|].
+      apply In_upd in Hb as [->|Hb]; [discriminate|eauto].
+Qed.
+
+Lemma Inv_poll_park s i a g :
+  Inv s -> nth_error (aws s) i = Some a -> a_pc a = ALoaded g -> Inv (poll_park Fixed i a g s).
+Proof.
+  intros HI Ha Hpc.
+  pose proof (park_mid_facts s i a g HI Ha Hpc) as F. cbn zeta in F.
+  change (poll_park Fixed i a g s) with
+    (match g with
+     | GGuard => release_guard (park_mid i a s)
+     | GListen => drop_listener (park_mid i a s) i
+     | GNone => park_mid i a s
+     end).
+  set (s2 := park_mid i a s) in *.
+  destruct F as (F1 & F2 & F3 & F4 & F5 & F6 & F7 & F8 & F9 & F10 & F11).
+  pose proof HI as [H1 H2 H3 H4 H5 H6 H7 H8].
+  assert (A1 : loading s2 = cpre (c_pc s2)) by congruence.
+  assert (A4 : wbit s2 = true <-> c_pc s2 = CWait) by (rewrite F3, F5; auto).
+  assert (A7 : cwritten (c_pc s2) = true -> value s2 = Some VAL) by (rewrite F5, F2; auto).
+  assert (Hmid : g1 a = 0 -> Inv s2).
+  { intros G0.
+    assert (A5 : readers s2 = nguard (aws s2)) by (rewrite F6, H5; lia).
+    assert (A6 : c_pc s2 = CWait -> cwoken s2 = false -> readers s2 <> 0)
+      by (rewrite F5, F4, F6; auto).
+    exact (mkInv _ A1 F8 F9 A4 A5 A6 A7 F11). }
+  destruct g.
+  - apply Hmid. unfold g1, is_guard. rewrite Hpc. reflexivity.
+  - (* the read guard is dropped; the last reader wakes the waiting writer *)
+    assert (G1 : g1 a = 1) by (unfold g1, is_guard; rewrite Hpc; reflexivity).
+    unfold release_guard.
+    refine (mkInv _ _ _ _ _ _ _ _ _); cbn -[nguard].
+    + exact A1.
+    + exact F8.
+    + exact F9.
+    + exact A4.
+    + rewrite F6, H5. lia.
+    + rewrite F5, F3, F4, F6. intros Hc Hw. apply H4 in Hc as Hb. rewrite Hb in Hw.
+      destruct (pred (readers s) =? 0) eqn:E; cbn in Hw; [discriminate|].
+      apply Nat.eqb_neq in E. auto.
+    + exact A7.
+    + exact F11.
+  - apply Inv_drop_listener, Hmid. unfold g1, is_guard. rewrite Hpc. reflexivity.
+Qed.
+
+Lemma Inv_aw_step s i a :
+  Inv s -> nth_error (aws s) i = Some a -> Inv (aw_step Fixed i a s).
+Proof.
+  intros HI Ha. unfold aw_step. destruct (a_pc a) eqn:Hpc.
+  - apply Inv_poll_start; auto.
+  - eapply Inv_poll_park; eauto.
+  - destruct (a_woken a); auto. apply Inv_poll_start; auto.
+  - auto.
+Qed.
+
+Lemma Inv_try_write s :
+  Inv s -> (c_pc s = CStart \/ c_pc s = CWait) -> Inv (try_write s).
+Proof.
+  intros HI Hc. pose proof HI as [H1 H2 H3 H4 H5 H6 H7 H8]. unfold try_write.
+  destruct (readers s =? 0) eqn:Hr.
+  - apply Inv_notify1. refine (mkInv _ _ _ _ _ _ _ _ _); cbn -[nguard].
+    + rewrite H1. destruct Hc as [-> | ->]; reflexivity.
+    + intros _; discriminate.
+    + exact H3.
+    + split; discriminate.
+    + exact H5.
+    + discriminate.
+    + reflexivity.
+    + exact H8.
+  - apply Nat.eqb_neq in Hr.
+    refine (mkInv _ _ _ _ _ _ _ _ _); cbn -[nguard].
+    + rewrite H1. destruct Hc as [-> | ->]; reflexivity.
+    + intros _; discriminate.
+    + exact H3.
+    + split; auto.
+    + exact H5.
+    + auto.
+    + discriminate.
+    + exact H8.
+Qed.
+
+Lemma Inv_comp_step s : Inv s -> Inv (comp_step s).
+Proof.
+  intros HI. pose proof HI as [H1 H2 H3 H4 H5 H6 H7 H8]. unfold comp_step.
+  destruct (c_pc s) eqn:Hc.
+  - apply Inv_try_write; auto.
+  - destruct (cwoken s); auto. apply Inv_try_write; auto.
+  - refine (mkInv _ _ _ _ _ _ _ _ _); cbn -[nguard].
+    + reflexivity.
+    + intros _; discriminate.
+    + exact H3.
+    + destruct H4 as [A B]. split; [intros X; apply A in X|]; discriminate.
+    + exact H5.
+    + discriminate.
+    + intros _. apply H7. reflexivity.
+    + exact H8.
+  - unfold set_cpc. refine (mkInv _ _ _ _ _ _ _ _ _); cbn -[nguard].
+    + rewrite H1. reflexivity.
+    + intros _; discriminate.
+    + exact H3.
+    + destruct H4 as [A B]. split; [intros X; apply A in X; discriminate|discriminate].
+    + exact H5.
+    + discriminate.
+    + intros _. apply H7. reflexivity.
+    + exact H8.
+  - (* drain: every registered waker is woken *)
+    pose proof (fold_wake_fields (wakers s) s) as F. cbn zeta in F.
+    destruct F as (F1 & F2 & F3 & F4 & F5 & F6 & F7 & F8).
+    pose proof (Inv_fold_wake (wakers s) s HI) as [G1 G2 G3 G4 G5 G6 G7 G8].
+    unfold set_cpc, set_wakers.
+    refine (mkInv _ _ _ _ _ _ _ _ _); cbn -[nguard].
+    + rewrite F1, H1. reflexivity.
+    + intros X; congruence.
+    + intros j b Hj Hp Hw. exfalso.
+      apply fold_wake_nth in Hj as (a & Ha & Hpa & Hva & Hwa).
+      apply Hwa in Hw as [Hw Hn]. apply Hn. eapply H3; eauto. congruence.
+    + rewrite F5. destruct H4 as [A B]. split; [intros X; apply A in X; discriminate|discriminate].
+    + exact G5.
+    + discriminate.
+    + intros _. rewrite F2. apply H7. reflexivity.
+    + exact G8.
+  - auto.
+Qed.
+
+Lemma Inv_astep s t : Inv s -> Inv (astep Fixed t s).
+Proof.
+  intros HI. unfold astep. destruct (nth_error (aws s) t) eqn:Ha.
+  - eapply Inv_aw_step; eauto.
+  - destruct (t =? length (aws s)); auto. apply Inv_comp_step; auto.
+Qed.
+
+Lemma Inv_arun sched : forall s, Inv s -> Inv (arun Fixed s sched).
+Proof. induction sched as [|t r IH]; intros s H; cbn; auto. apply IH, Inv_astep, H. Qed.
+
+(** ** no lost wake-up, for every number of awaiters and every schedule *)
+Lemma Inv_terminal_all_done s :
+  Inv s -> aterminal s -> c_pc s = CDone /\ forall a, In a (aws s) -> a_pc a = ADone VAL.
+Proof.
+  intros [H1 H2 H3 H4 H5 H6 H7 H8] [Tc Ta].
+  assert (Hc : c_pc s = CDone).
+  { unfold comp_enabled in Tc. destruct (c_pc s) eqn:Hc; try discriminate; auto.
+    exfalso. specialize (H6 eq_refl Tc). rewrite H5 in H6. unfold nguard in H6.
+    destruct (filter is_guard (aws s)) as [|a l] eqn:Hf; [auto|].
+    assert (Hin : In a (filter is_guard (aws s))) by (rewrite Hf; left; auto).
+    apply filter_In in Hin as [Hin Hg]. specialize (Ta _ Hin).
+    unfold is_guard in Hg. unfold aw_enabled in Ta. destruct (a_pc a); discriminate. }
+  split; auto. intros a Hin.
+  assert (Hw : wakers s = []).
+  { destruct (wakers s) eqn:E; auto. exfalso. apply H2; auto. discriminate. }
+  pose proof (Ta _ Hin) as En. unfold aw_enabled in En.
+  destruct (a_pc a) eqn:Hp; try discriminate.
+  - exfalso. apply In_nth_error in Hin as [i Hi]. specialize (H3 _ _ Hi Hp En). rewrite Hw in H3. auto.
+  - f_equal. eapply H8; eauto.
+Qed.
+
+Theorem no_lost_wakeup :
+  forall (kinds : list bool) (sched : list nat),
+    let s := arun Fixed (ainit kinds) sched in
+    aterminal s ->
+    c_pc s = CDone /\ forall a, In a (aws s) -> a_pc a = ADone VAL.
+Proof.
+  intros kinds sched s T. apply Inv_terminal_all_done; auto. apply Inv_arun, Inv_init.
+Qed.
+
+(** hypotheses satisfiable: 2 awaiters (ready() and into_future()), a schedule in which the
+    second awaiter holds the read guard while the completer wants to write *)
+Example no_lost_wakeup_nontrivial :
+  let s := arun Fixed (ainit [false; true]) [1; 2; 0; 2; 1; 2; 2; 0; 2; 2; 0; 1; 0; 1] in
+  aterminalb s = true /\ map a_polls (aws s) = [2; 2]%nat.
+Proof. vm_compute. split; reflexivity. Qed.
+
+(** ** the protocol before the fix loses a wake-up: witness of length 6
+    (awaiter loads `loading = true`; completer stores the value, clears `loading`, drains;
+    awaiter pushes its waker and parks for ever) *)
+Example no_lost_wakeup_prefix_refuted :
+  exists kinds sched,
+    let s := arun Prefix (ainit kinds) sched in
+    aterminal s /\ exists a, In a (aws s) /\ a_pc a = AParked /\ a_woken a = false.
+Proof.
+  exists [false], [0; 1; 1; 1; 1; 0]%nat. cbn zeta. split.
+  - split; [vm_compute; reflexivity|]. intros a. vm_compute. intros [<-|[]]. reflexivity.
+  - eexists. split; [vm_compute; left; reflexivity|]. split; reflexivity.
+Qed.
+
+(** same window with `into_future()` (the awaiter polls the value lock between load and push) *)
+Example no_lost_wakeup_prefix_refuted_value :
+  let s := arun Prefix (ainit [true]) [1; 0; 1; 1; 1; 0]%nat in
+  aterminalb s = true /\ map aw_done (aws s) = [false].
+Proof. vm_compute. split; reflexivity. Qed.
+
+(** and the repaired protocol on the same schedules *)
+Example no_lost_wakeup_fixed_on_witness :
+  map aw_done (aws (arun Fixed (ainit [false]) [0; 1; 1; 1; 1; 0; 0]%nat)) = [true]
+  /\ map aw_done (aws (arun Fixed (ainit [true]) [1; 0; 1; 1; 1; 0; 0]%nat)) = [true].
+Proof. vm_compute. split; reflexivity. Qed.
+
+(* ------------------------------------------------------------------------------------ *)
+(** * (b) effect notification channel *)
+
+Definition count {A} (P : A -> bool) (l : list A) : nat := length (filter P l).
+Definition b2n (b : bool) : nat := if b then 1 else 0.
+
+Lemma count_upd {A} (P : A -> bool) l i x a :
+  nth_error l i = Some a -> count P (upd l i x) + b2n (P a) = count P l + b2n (P x).
+Proof.
+  unfold count, b2n. revert i; induction l as [|h t IH]; intros [|i]; cbn; try discriminate.
+  - intros [= ->]. destruct (P a), (P x); cbn; lia.
+  - intros H. specialize (IH _ H). destruct (P h); cbn; lia.
+Qed.
+
+Lemma count_pos_ex {A} (P : A -> bool) l : count P l <> 0 -> exists x, In x l /\ P x = true.
+Proof.
+  unfold count. destruct (filter P l) as [|x r] eqn:E; [cbn; congruence|]. intros _.
+  assert (H : In x (filter P l)) by (rewrite E; left; auto).
+  apply filter_In in H. eauto.
+Qed.
+
+Definition nonempty {A} (l : list A) : bool := match l with [] => false | _ => true end.
+(** a sender between `set.store(true)` and `waker.wake()` *)
+Definition is_pending (x : sender) : bool :=
+  match s_ph x with PN2 => nonempty (s_ops x) | _ => false end.
+(** a sender that has written the signal but not yet marked the effect dirty *)
+Definition is_unmarked (x : sender) : bool :=
+  match s_ph x with PM | PN1 => nonempty (s_ops x) | _ => false end.
+
+Definition alive (s : cst) : Prop := c_rpc s <> RParked \/ c_rwoken s = true.
+
+Record CInv (s : cst) : Prop := mkCInv {
+  C_reg : c_reg s = true \/ c_rwoken s = true;
+  C_flag : c_flag s = true -> alive s \/ count is_pending (c_snd s) <> 0;
+  C_dirty : c_dirty s = true -> c_flag s = true \/ c_rpc s = RWantLock;
+  C_log : hd_error (c_log s) = Some (c_sv s) \/ c_dirty s = true
+          \/ count is_unmarked (c_snd s) <> 0;
+}.
+
+Lemma CInv_init fine progs : CInv (cinit fine progs).
+Proof.
+  constructor; cbn; auto; try discriminate.
+Qed.
+
+(** lock and wait-queue bookkeeping is invisible to the invariant *)
+Lemma CInv_lockq s l q :
+  CInv s ->
+  CInv (mkC (c_fine s) (c_flag s) (c_reg s) (c_rwoken s) (c_dirty s) l (c_sv s) (c_log s)
+            (c_rpc s) (c_snd s) q).
+Proof. intros [H1 H2 H3 H4]; constructor; auto. Qed.
+
+Lemma CInv_rx_run s :
+  (c_reg s = true \/ c_rwoken s = true) ->
+  (hd_error (c_log s) = Some (c_sv s) \/ c_dirty s = true \/ count is_unmarked (c_snd s) <> 0) ->
+  CInv (rx_run s).
+Proof.
+  intros H1 H4. unfold rx_run, c_with_rx. destruct (c_elock s).
+  - refine (mkCInv _ _ _ _ _); cbn.
+    + exact H1.
+    + intros _. left. left. discriminate.
+    + intros _. right. reflexivity.
+    + exact H4.
+  - refine (mkCInv _ _ _ _ _); cbn.
+    + left; reflexivity.
+    + intros _. left. left. discriminate.
+    + discriminate.
+    + destruct (c_dirty s) eqn:Hd; cbn; auto.
+Qed.
+
+Lemma CInv_rx_step s : CInv s -> CInv (rx_step s).
+Proof.
+  intros HI. pose proof HI as [H1 H2 H3 H4]. unfold rx_step.
+  destruct (c_rpc s) eqn:Hr.
+  - destruct (c_rwoken s) eqn:Hw; auto. unfold c_with_rx.
+    refine (mkCInv _ _ _ _ _); cbn.
+    + left; reflexivity.
+    + intros _. left. left. discriminate.
+    + intros Hd. apply H3 in Hd as [Hd|Hd]; auto. discriminate.
+    + exact H4.
+  - destruct (c_flag s) eqn:Hf.
+    + apply CInv_rx_run; unfold c_with_rx; cbn; auto.
+    + unfold c_with_rx. refine (mkCInv _ _ _ _ _); cbn.
+      * exact H1.
+      * discriminate.
+      * intros Hd. apply H3 in Hd as [Hd|Hd]; discriminate.
+      * exact H4.
+  - auto.
+Qed.
+
+(** AtomicWaker::wake: afterwards the receiver's task is woken (it was registered, or a wake
+    is already outstanding) *)
+Lemma do_wake_alive s : (c_reg s = true \/ c_rwoken s = true) -> c_rwoken (do_wake s) = true.
+Proof. intros [H|H]; unfold do_wake; rewrite ?H; cbn; auto. destruct (c_reg s); cbn; auto. Qed.
+
+Lemma do_wake_fields s :
+  c_fine (do_wake s) = c_fine s /\ c_flag (do_wake s) = c_flag s /\ c_dirty (do_wake s) = c_dirty s
+  /\ c_elock (do_wake s) = c_elock s /\ c_sv (do_wake s) = c_sv s /\ c_log (do_wake s) = c_log s
+  /\ c_rpc (do_wake s) = c_rpc s /\ c_snd (do_wake s) = c_snd s /\ c_waitq (do_wake s) = c_waitq s.
+Proof. unfold do_wake. destruct (c_reg s); cbn; repeat split. Qed.
+
+Lemma CInv_do_wake s : CInv s -> CInv (do_wake s).
+Proof.
+  intros [H1 H2 H3 H4]. pose proof (do_wake_alive s H1) as A.
+  pose proof (do_wake_fields s) as (F1 & F2 & F3 & F4 & F5 & F6 & F7 & F8 & F9).
+  refine (mkCInv _ _ _ _ _).
+  - right; auto.
+  - intros _. left. right. auto.
+  - rewrite F3, F2, F7. auto.
+  - rewrite F6, F5, F3, F8. auto.
+Qed.
+
+Lemma is_pending_next x : is_pending (next_op x) = false.
+Proof. reflexivity. Qed.
+Lemma is_unmarked_next x : is_unmarked (next_op x) = false.
+Proof. reflexivity. Qed.
+
+(** `mark_dirty` of the effect by sender j standing at PN1 *)
+Lemma CInv_snd_n1 s j x :
+  CInv s -> nth_error (c_snd s) j = Some x -> s_ph x = PN1 -> s_ops x <> [] ->
+  CInv (snd_n1 s j x).
+Proof.
+  intros HI Hx Hp Ho. pose proof HI as [H1 H2 H3 H4]. unfold snd_n1.
+  assert (Ux : is_unmarked x = true) by (unfold is_unmarked; rewrite Hp; destruct (s_ops x); auto; congruence).
+  assert (Px : is_pending x = false) by (unfold is_pending; rewrite Hp; auto).
+  destruct (c_elock s).
+  - apply (CInv_lockq s (Some n) (c_waitq s ++ [S j])) in HI. exact HI.
+  - destruct (c_fine s) eqn:Hfine.
+    + (* fine: flag set, paused before the wake, holding the lock *)
+      unfold set_snd. refine (mkCInv _ _ _ _ _); cbn.
+      * exact H1.
+      * intros _. right.
+        pose proof (count_upd is_pending _ _ (mkSnd (s_ops x) PN2) _ Hx) as E.
+        rewrite Px in E. unfold b2n at 2 in E. unfold is_pending at 3 in E. cbn in E.
+        destruct (s_ops x); [congruence|]. cbn in E. unfold count in *. lia.
+      * intros _. left; reflexivity.
+      * right; left; reflexivity.
+    + (* coarse: flag set and receiver woken in the same segment *)
+      set (s1 := mkC false true (c_reg s) (c_rwoken s) true None (c_sv s) (c_log s)
+                     (c_rpc s) (c_snd s) (c_waitq s)).
+      assert (A : c_rwoken (do_wake s1) = true) by (apply do_wake_alive; exact H1).
+      pose proof (do_wake_fields s1) as (F1 & F2 & F3 & F4 & F5 & F6 & F7 & F8 & F9).
+      unfold set_snd. refine (mkCInv _ _ _ _ _); cbn.
+      * right; auto.
+      * intros _. left. right. auto.
+      * intros _. left. rewrite F2. reflexivity.
+      * right; left. rewrite F3. reflexivity.
+Qed.
+
+Lemma CInv_resume s t : CInv s -> CInv (resume s t).
+Proof.
+  intros HI. destruct t as [|j]; cbn.
+  - destruct HI as [H1 H2 H3 H4]. apply CInv_rx_run; auto.
+  - destruct (nth_error (c_snd s) j) as [x|] eqn:Hx; auto.
+    destruct (s_ph x) eqn:Hp; auto. destruct (s_ops x) eqn:Ho; auto.
+    apply CInv_snd_n1; auto. congruence.
+Qed.
+
+Lemma CInv_settle fuel : forall s, CInv s -> CInv (settle fuel s).
+Proof.
+  induction fuel as [|f IH]; intros s HI; cbn; auto.
+  destruct (c_elock s); auto. destruct (c_waitq s) as [|t q]; auto.
+  apply IH, CInv_resume. apply (CInv_lockq s None q HI).
+Qed.
+
+Lemma count_upd_same {A} (P : A -> bool) l i x a :
+  nth_error l i = Some a -> P a = P x -> count P (upd l i x) = count P l.
+Proof. intros H E. pose proof (count_upd P l i x a H) as C. rewrite E in C. lia. Qed.
+
+Lemma CInv_snd_step s j x :
+  CInv s -> nth_error (c_snd s) j = Some x -> CInv (snd_step s j x).
+Proof.
+  intros HI Hx. pose proof HI as [H1 H2 H3 H4]. unfold snd_step.
+  destruct (existsb (Nat.eqb (S j)) (c_waitq s)); auto.
+  destruct (s_ops x) as [|v rest] eqn:Ho; auto.
+  destruct (s_ph x) eqn:Hp.
+  - (* the write *)
+    unfold set_snd. refine (mkCInv _ _ _ _ _); cbn -[count].
+    + exact H1.
+    + rewrite (count_upd_same is_pending _ _ (mkSnd (v :: rest) PM) _ Hx); auto.
+      unfold is_pending. rewrite Hp. reflexivity.
+    + exact H3.
+    + right; right.
+      pose proof (count_upd is_unmarked _ _ (mkSnd (v :: rest) PM) _ Hx) as E.
+      assert (U0 : is_unmarked x = false) by (unfold is_unmarked; rewrite Hp; reflexivity).
+      rewrite U0 in E. cbn in E. lia.
+  - (* subscribers cloned *)
+    unfold set_snd. refine (mkCInv _ _ _ _ _); cbn -[count].
+    + exact H1.
+    + rewrite (count_upd_same is_pending _ _ (mkSnd (v :: rest) PN1) _ Hx); auto.
+      unfold is_pending. rewrite Hp. reflexivity.
+    + exact H3.
+    + rewrite (count_upd_same is_unmarked _ _ (mkSnd (v :: rest) PN1) _ Hx); auto.
+      unfold is_unmarked. rewrite Hp, Ho. reflexivity.
+  - apply CInv_snd_n1; auto. congruence.
+  - (* wake; unlock; blocked threads continue *)
+    apply CInv_settle.
+    pose proof (CInv_do_wake s HI) as [D1 D2 D3 D4].
+    pose proof (do_wake_alive s H1) as A.
+    pose proof (do_wake_fields s) as (F1 & F2 & F3 & F4 & F5 & F6 & F7 & F8 & F9).
+    unfold set_snd. refine (mkCInv _ _ _ _ _); cbn -[count].
+    + right; auto.
+    + intros _. left. right. auto.
+    + exact D3.
+    + rewrite F8.
+      rewrite (count_upd_same is_unmarked _ _ (next_op x) _ Hx).
+      * rewrite <- F8. exact D4.
+      * unfold is_unmarked at 1. rewrite Hp. reflexivity.
+Qed.
+
+Lemma CInv_cstep s t : CInv s -> CInv (cstep t s).
+Proof.
+  intros HI. destruct t as [|j]; cbn.
+  - apply CInv_rx_step; auto.
+  - destruct (nth_error (c_snd s) j) eqn:Hx; auto. apply CInv_snd_step; auto.
+Qed.
+
+Lemma CInv_crun sched : forall s, CInv s -> CInv (crun s sched).
+Proof. induction sched as [|t r IH]; intros s H; cbn; auto. apply IH, CInv_cstep, H. Qed.
+
+(** ** no lost notification: once every writer has finished and the effect's task is parked
+    with no wake outstanding, its last run saw the final value of the signal *)
+Lemma CInv_terminal s :
+  CInv s -> cterminal s ->
+  hd_error (c_log s) = Some (c_sv s) /\ c_flag s = false /\ c_dirty s = false.
+Proof.
+  intros [H1 H2 H3 H4] (Ts & Tr & Tw).
+  assert (NP : count is_pending (c_snd s) = 0).
+  { destruct (count is_pending (c_snd s)) eqn:E; auto. exfalso.
+    assert (Hne : count is_pending (c_snd s) <> 0) by lia.
+    apply count_pos_ex in Hne as (x & Hin & Hp). apply Ts in Hin.
+    unfold snd_finished in Hin. unfold is_pending in Hp.
+    destruct (s_ops x); [destruct (s_ph x)|]; discriminate. }
+  assert (NU : count is_unmarked (c_snd s) = 0).
+  { destruct (count is_unmarked (c_snd s)) eqn:E; auto. exfalso.
+    assert (Hne : count is_unmarked (c_snd s) <> 0) by lia.
+    apply count_pos_ex in Hne as (x & Hin & Hp). apply Ts in Hin.
+    unfold snd_finished in Hin. unfold is_unmarked in Hp.
+    destruct (s_ops x); [destruct (s_ph x)|]; discriminate. }
+  assert (Hf : c_flag s = false).
+  { destruct (c_flag s) eqn:E; auto. exfalso.
+    destruct (H2 eq_refl) as [[A|A]|A]; congruence. }
+  assert (Hd : c_dirty s = false).
+  { destruct (c_dirty s) eqn:E; auto. exfalso.
+    destruct (H3 eq_refl) as [A|A]; congruence. }
+  repeat split; auto.
+  destruct H4 as [A|[A|A]]; auto; congruence.
+Qed.
+
+Theorem no_lost_notification :
+  forall (fine : bool) (progs : list (list Z)) (sched : list nat),
+    let s := crun (cinit fine progs) sched in
+    cterminal s ->
+    hd_error (c_log s) = Some (c_sv s) /\ c_flag s = false /\ c_dirty s = false.
+Proof.
+  intros fine progs sched s T. apply CInv_terminal; auto. apply CInv_crun, CInv_init.
+Qed.
+
+(** hypotheses satisfiable: a sender paused between `set.store(true)` and `wake` while the
+    receiver consumes the flag and blocks on the effect's lock; two notifications *)
+Example no_lost_notification_nontrivial :
+  let pre := [1; 1; 1; 1; 0; 1; 1; 1; 0]%nat in
+  let s1 := crun (cinit true [[5; 6]%Z]) pre in
+  let s := crun (cinit true [[5; 6]%Z]) (pre ++ [1; 0; 0; 0; 0]%nat) in
+  (c_rpc s1 = RWantLock /\ c_waitq s1 = [0]%nat /\ c_elock s1 = Some 1%nat)
+  /\ c_rpc s = RParked /\ c_rwoken s = false /\ map snd_finished (c_snd s) = [true]
+  /\ c_log s = [6; 0]%Z.
+Proof. vm_compute. repeat split; reflexivity. Qed.
